@@ -455,6 +455,12 @@ class IMAPClientCommand:
         #
         self.completed = False
 
+        # If the mailbox's management task could not let this command run
+        # (eg: the message set is out of range for the mailbox) the reason is
+        # set here before `ready` is signaled.
+        #
+        self.error: Exception | None = None
+
     ##################################################################
     #
     @asynccontextmanager
@@ -466,6 +472,8 @@ class IMAPClientCommand:
         try:
             mbox.task_queue.put_nowait(self)
             await self.ready.wait()
+            if self.error is not None:
+                raise self.error
             if mbox.deleted:
                 from .mbox import NoSuchMailbox
 
